@@ -142,6 +142,7 @@ VARIANTS = {
   fault('code-language-raw', F(HR, 'HtmlRenderer.render_block_code', "'language-{}'.format(html.escape(token.language))", "'language-{}'.format(token.language)"), ('R-HOLE', 'language')),
   fault('url-only-quoted', F(HR, 'HtmlRenderer.escape_url', "return html.escape(quote(raw, safe='/#:()*?=%@+,&;'))", "return quote(raw, safe='/#:()*?=%@+,&;\"')"), 'R-HOLE'),
   fault('html-tokens-always-on', F(HR, 'HtmlRenderer.__init__', 'chain((HtmlBlock, HtmlSpan) if process_html_tokens else (), extras)', 'chain((HtmlBlock, HtmlSpan), extras)'), 'R-RAW-ONLY-HTML'),
+  fault('mathjax-display-math-raw', F('mistletoe/contrib/mathjax.py', 'MathJaxRenderer.render_math', "            return self.render_raw_text(token)\n", "            return super().render_math(token)\n"), ('R-HOLE', 'Math.content')),
   fault('raw-text-unescaped', F(HR, 'HtmlRenderer.render_raw_text', 'return self.escape_html_text(token.content)', 'return token.content'), ('R-HOLE', 'RawText.content')),
   fault('ptag-stack-not-popped', F(HR, 'HtmlRenderer.render_quote', "        self._suppress_ptag_stack.pop()\n", ''), 'R-STACK'),
   fault('unclosed-tag-template', F(HR, 'HtmlRenderer.render_strikethrough', "template = '<del>{}</del>'", "template = '<del>{}<del>'"), 'R-BALANCE'),
